@@ -135,12 +135,23 @@ impl AsyncFileSystem for AsyncOverlayFS {
                 VfsFileType::Directory => Err(VfsErrorKind::DirectoryExists.into()),
             };
         }
-        self.write_path(path)?.create_dir().await?;
-        let whiteout_path = self.whiteout_path(path)?;
-        if whiteout_path.exists().await? {
-            whiteout_path.remove_file().await?;
+        let created = self.write_path(path)?.create_dir().await;
+        // DirectoryExists from the upper layer means a concurrent caller is re-creating the same
+        // directory: the marker has to go in that case too, or the directory stays hidden from
+        // this caller (create_dir_all would then fail on the next path segment)
+        let lost_race = matches!(&created, Err(err) if matches!(err.kind(), VfsErrorKind::DirectoryExists));
+        if created.is_ok() || lost_race {
+            let whiteout_path = self.whiteout_path(path)?;
+            if whiteout_path.exists().await? {
+                match whiteout_path.remove_file().await {
+                    Ok(()) => {}
+                    // the concurrent caller removed the marker first
+                    Err(err) if matches!(err.kind(), VfsErrorKind::FileNotFound) => {}
+                    Err(err) => return Err(err),
+                }
+            }
         }
-        Ok(())
+        created
     }
 
     async fn open_file(&self, path: &str) -> VfsResult<Box<dyn SeekAndRead + Send + Unpin>> {
